@@ -353,9 +353,7 @@ pub fn gen_link(g: &mut Gen, tp: &TrainParamSpec, elev0: f64, o: &ChainOpts) -> 
             cells.sort();
             for k in 0..nc {
                 let (a, b) = (cells[2 * k], cells[2 * k + 1]);
-                if a == b {
-                    continue;
-                }
+                // a == b: a section without extent (validation accepts it)
                 let r = |c: usize| (length * c as f64 / 20.0 * 10.0).round() / 10.0;
                 cats.push((r(a), r(b), g.grid(1.0e6, 8.0e6, 14)));
             }
